@@ -10,6 +10,10 @@
 //! delivered rows per flushed batch, in flush order, each once.
 //! Lane 3: random TopicFilter trees x batch metadata through the real
 //! TopicBroadcastChannel / FilteredReceiver vs reference topic semantics.
+//! Lane 4 (transport): the same subscriptions made the way a client makes them - a
+//! WebSocket connection to /api/v1/stream of the real HTTP router on a loopback
+//! socket, {"query": ..., "live": true} - with sentinel batches (known to satisfy the
+//! WHERE clause) delimiting the observed window, so no timing enters the verdict.
 
 use crate::clock;
 use crate::outcome::Outcome;
@@ -54,6 +58,7 @@ fn make_batch(rows: &[Row], ts_typed: bool) -> RecordBatch {
             Field::new("value_f64", DataType::Float64, true),
             Field::new("host", DataType::Utf8, true),
             Field::new("value_u64", DataType::UInt64, false), // carries the row id
+            Field::new("rid", DataType::Utf8, false),         // the row id again, as text (survives the JSON rendering of the WebSocket transport)
         ])),
         vec![
             ts_arr,
@@ -62,6 +67,7 @@ fn make_batch(rows: &[Row], ts_typed: bool) -> RecordBatch {
             Arc::new(Float64Array::from(rows.iter().map(|r| r.vf).collect::<Vec<_>>())),
             Arc::new(StringArray::from(rows.iter().map(|r| r.host.clone()).collect::<Vec<_>>())),
             Arc::new(arrow_array::UInt64Array::from(rows.iter().map(|r| r.id as u64).collect::<Vec<_>>())),
+            Arc::new(StringArray::from(rows.iter().map(|r| r.id.to_string()).collect::<Vec<_>>())),
         ],
     )
     .unwrap()
@@ -148,6 +154,8 @@ pub fn run(ctx: &Ctx) -> Outcome {
         lane3(ctx, &mut out, n3).await;
     });
     lane2(ctx, &mut out, n2);
+    let n4: u64 = if ctx.thorough { 14 * 120 } else { 48 };
+    lane4(ctx, &mut out, n4);
     clock::unfreeze_wall();
     out
 }
@@ -378,4 +386,209 @@ fn lane2(ctx: &Ctx, out: &mut Outcome, total: u64) {
         }
     }
     let _ = rows::multiset(vec![]);
+}
+
+
+/// Rows of `batch_rows` forced to the live side of the merge point, regenerated until the
+/// reference says at least one of them satisfies the WHERE clause (None if that never happens).
+async fn matching_batch(rng: &mut Rng, w: &str, merge: i64, first_id: i64, ts: i64) -> Option<(RecordBatch, Vec<u64>)> {
+    for _ in 0..40 {
+        let mut rows = gen_rows(rng, merge, first_id);
+        for r in rows.iter_mut() {
+            r.ts = merge + 1000;
+        }
+        let b = make_batch(&rows, false);
+        match reference(&b, w, merge, false).await {
+            Ok(ids) if !ids.is_empty() => {
+                // the WHERE clauses of this family never mention the timestamp
+                for r in rows.iter_mut() {
+                    r.ts = ts;
+                }
+                return Some((make_batch(&rows, false), ids));
+            }
+            Ok(_) => continue,
+            Err(_) => return None,
+        }
+    }
+    None
+}
+
+fn rids_of_message(text: &str) -> (String, Vec<u64>) {
+    let v: serde_json::Value = serde_json::from_str(text).unwrap_or(serde_json::Value::Null);
+    let ty = v.get("type").and_then(|t| t.as_str()).unwrap_or("?").to_string();
+    let ids = v
+        .get("data")
+        .and_then(|d| d.as_array())
+        .map(|rows| rows.iter().filter_map(|r| r.get("rid").and_then(|x| x.as_str()).and_then(|x| x.parse::<u64>().ok())).collect())
+        .unwrap_or_default();
+    (ty, ids)
+}
+
+fn lane4(ctx: &Ctx, out: &mut Outcome, total: u64) {
+    use futures::{SinkExt, StreamExt};
+    use tokio_tungstenite::tungstenite::Message;
+    const HIST: i64 = 700_000;
+    const PRE: i64 = 800_000;
+    const POST: i64 = 900_000;
+    for idx in ctx.my_cases(total) {
+        let mut rng = ctx.rng("C18-l4", idx);
+        let merge = clock::SIM_EPOCH_NS;
+        let mut tags = vec![];
+        let w = gen_where(&mut rng, 2, &mut tags);
+        let nb = 2 + rng.usize(4);
+        let batches: Vec<Vec<Row>> = (0..nb).map(|b| gen_rows(&mut rng, merge, (b as u64 * 50) as i64 + 1)).collect();
+        let (w2, batches2) = (w.clone(), batches.clone());
+        let mut rng2 = rng.fork(4);
+        let rt = tokio::runtime::Builder::new_current_thread().enable_all().build().unwrap();
+        // Err(("setup"|"skip", text)) are not verdicts
+        let res: Result<(Vec<Vec<u64>>, Vec<Vec<u64>>, u64), (&'static str, String)> = rt.block_on(async move {
+            clock::freeze_wall(merge);
+            let setup = |e: String| ("setup", e);
+            let store = Arc::new(InMemory::new());
+            let meta = Arc::new(LocalMetadataClient::new());
+            let ing = Arc::new(Ingester::new(crate::checks::c03::no_wal_ingester_config(), store.clone(), meta.clone(), crate::checks::c01::storage_config(), MetricSchema::default_metrics()));
+            let mut node = QueryNode::new(crate::checks::c09::query_config(), store.clone(), meta.clone(), crate::checks::c01::storage_config()).await.map_err(|e| setup(e.to_string()))?;
+            node.connect_broadcast(ing.subscribe());
+            let frx = ing.subscribe_filtered(TopicFilter::All).await;
+            let node = Arc::new(node.with_topic_filter(frx));
+            let router = cardinalsin::api::build_http_router(ing.clone(), node.clone());
+            let listener = tokio::net::TcpListener::bind("127.0.0.1:0").await.map_err(|e| setup(format!("bind: {e}")))?;
+            let port = listener.local_addr().map_err(|e| setup(e.to_string()))?.port();
+            tokio::spawn(async move {
+                let _ = axum::serve(listener, router).await;
+            });
+            // a stored batch that satisfies the WHERE clause: the historical part answers with >= 1 message
+            let Some((hist, _)) = matching_batch(&mut rng2, &w2, merge, HIST, merge - 1_000_000_000).await else {
+                return Err(("skip", "no row of the generator satisfies this WHERE clause".to_string()));
+            };
+            ing.write(hist).await.map_err(|e| setup(format!("write: {e}")))?;
+            let (mut ws, _) = tokio_tungstenite::connect_async(format!("ws://127.0.0.1:{}/api/v1/stream", port)).await.map_err(|e| setup(format!("connect: {e}")))?;
+            let req = json!({"query": format!("SELECT * FROM metrics WHERE {}", w2), "live": true}).to_string();
+            ws.send(Message::Text(req)).await.map_err(|e| setup(format!("send: {e}")))?;
+            let watchdog = Duration::from_secs(20);
+            // 1. first historical message: the historical query has been executed
+            loop {
+                match tokio::time::timeout(watchdog, ws.next()).await {
+                    Ok(Some(Ok(Message::Text(t)))) => {
+                        let (ty, ids) = rids_of_message(&t);
+                        if ty == "error" {
+                            return Err(("skip", format!("the server refused the query: {}", t.chars().take(120).collect::<String>())));
+                        }
+                        if std::env::var("CSVERIF_DEBUG").is_ok() {
+                            eprintln!("hist msg: {}", t.chars().take(400).collect::<String>());
+                        }
+                        // (string columns of the historical answer are rendered as "Utf8View" by the
+                        // transport, so the historical rows are not identified; any data message will do:
+                        // nothing else can arrive before the first probe batch is written)
+                        let _ = ids;
+                        if ty == "data" {
+                            break;
+                        }
+                    }
+                    Ok(Some(Ok(_))) => continue,
+                    Ok(Some(Err(e))) => return Err(("setup", format!("socket: {e}"))),
+                    Ok(None) => return Err(("setup", "socket closed before the historical answer".into())),
+                    Err(_) => return Err(("setup", "no historical answer within 20 s".into())),
+                }
+            }
+            // 2. probe batches until one arrives over the live path: the subscription is established
+            let mut subscribed = false;
+            let mut received: Vec<(String, Vec<u64>)> = vec![];
+            for k in 0..400i64 {
+                let Some((b, _)) = matching_batch(&mut rng2, &w2, merge, PRE + k * 20, merge + 1000).await else {
+                    return Err(("skip", "no probe batch".into()));
+                };
+                ing.write(b).await.map_err(|e| setup(format!("write: {e}")))?;
+                if let Ok(Some(Ok(Message::Text(t)))) = tokio::time::timeout(Duration::from_millis(25), ws.next()).await {
+                    let (ty, ids) = rids_of_message(&t);
+                    if ids.iter().any(|i| (*i as i64) >= PRE && (*i as i64) < POST) {
+                        subscribed = true;
+                        break;
+                    }
+                    received.push((ty, ids));
+                }
+            }
+            if !subscribed {
+                return Err(("setup", "no probe batch arrived over the live path (400 probes)".into()));
+            }
+            // 3. the observed window
+            let mut want: Vec<Vec<u64>> = vec![];
+            let mut rows_sent = 0u64;
+            for rows in &batches2 {
+                let b = make_batch(rows, false);
+                rows_sent += rows.len() as u64;
+                let r = reference(&b, &w2, merge, false).await.map_err(|e| ("skip", format!("reference: {e}")))?;
+                if !r.is_empty() {
+                    want.push(r);
+                }
+                ing.write(b).await.map_err(|e| setup(format!("write: {e}")))?;
+            }
+            // 4. closing sentinel
+            let Some((b, _)) = matching_batch(&mut rng2, &w2, merge, POST, merge + 1000).await else {
+                return Err(("skip", "no closing batch".into()));
+            };
+            ing.write(b).await.map_err(|e| setup(format!("write: {e}")))?;
+            let mut got: Vec<Vec<u64>> = vec![];
+            loop {
+                match tokio::time::timeout(watchdog, ws.next()).await {
+                    Ok(Some(Ok(Message::Text(t)))) => {
+                        let (_, ids) = rids_of_message(&t);
+                        if ids.iter().any(|i| (*i as i64) >= POST) {
+                            break;
+                        }
+                        let mine: Vec<u64> = ids.into_iter().filter(|i| (*i as i64) < HIST).collect();
+                        if !mine.is_empty() {
+                            got.push(mine);
+                        }
+                    }
+                    Ok(Some(Ok(_))) => continue,
+                    Ok(Some(Err(e))) => return Err(("setup", format!("socket: {e}"))),
+                    Ok(None) => return Err(("setup", "socket closed before the closing sentinel".into())),
+                    Err(_) => return Err(("setup", "closing sentinel not delivered within 20 s".into())),
+                }
+            }
+            let _ = ws.close(None).await;
+            Ok((got, want, rows_sent))
+        });
+        drop(rt);
+        out.eval();
+        out.count("lane4.websocket_subscriptions", 1);
+        match res {
+            Err(("skip", e)) => {
+                out.count("lane4.skipped", 1);
+                out.note(&format!("lane4 skipped a case: {}", e.chars().take(120).collect::<String>()));
+            }
+            Err((_, e)) => {
+                out.count("lane4.setup_errors", 1);
+                out.note(&format!("lane4: {}", e.chars().take(160).collect::<String>()));
+            }
+            Ok((got, want, rows_sent)) => {
+                out.count("lane4.batches_flushed", nb as u64);
+                out.count("lane4.rows_flushed", rows_sent);
+                out.count("lane4.rows_expected", want.iter().map(|v| v.len() as u64).sum());
+                out.count("lane4.rows_delivered", got.iter().map(|v| v.len() as u64).sum());
+                if !want.is_empty() && want.iter().map(|v| v.len() as u64).sum::<u64>() < rows_sent {
+                    out.nontrivial(hash_str(&format!("l4|{}|{}", w, idx)));
+                }
+                if got != want {
+                    let extra = got.iter().flatten().filter(|i| !want.iter().flatten().any(|j| j == *i)).count();
+                    let missing = want.iter().flatten().filter(|i| !got.iter().flatten().any(|j| j == *i)).count();
+                    let cls = if extra > 0 && missing == 0 {
+                        "rows-not-satisfying-the-where-clause-delivered"
+                    } else if missing > 0 && extra == 0 {
+                        "matching-rows-not-delivered"
+                    } else if extra == 0 && missing == 0 {
+                        "order-or-multiplicity"
+                    } else {
+                        "other"
+                    };
+                    out.violation(
+                        &format!("C18/websocket/{}", cls),
+                        &format!("WebSocket live tail for WHERE {}: delivered {:?}, expected per flushed batch {:?}", w, got, want),
+                        json!({"lane": 4, "case_index": idx, "seed": ctx.seed, "where": w, "batches": batches.iter().map(|b| b.iter().map(|r| format!("{:?}", r)).collect::<Vec<_>>()).collect::<Vec<_>>()}),
+                    );
+                }
+            }
+        }
+    }
 }
